@@ -4,7 +4,7 @@ CONSTANTS
   Orders = {"std", "rev", "mix", "featfirst"}
   Casings = {"lower", "upper", "mixed"}
   Encs = {"pm", "zo", "bool"}
-  NanCls = {"none", "first", "last", "two", "mid", "all", "charge"}
+  NanCls = {"none", "first", "two", "all", "charge"}
   Chunks = {3}
   Workers = {2}
   RowCls = {"three"}
